@@ -483,9 +483,9 @@ EXTRA5 = {
   technique="; the connection string as a shape (9 leading-word classes x 0 / 1 / 2+ separators x place of the surplus separator x the driver's view of the DSN; 162 shapes, exhaustive x backend x 4 bases, every concrete spelling validated); 'usable' is decided by the repository's own storage constructors up to dialling (klog.OsExit and the MySQL dial hook intercepted) and cross-checked against the specification's StorageOpens; the validated configuration must carry backend and string verbatim",
   note=" Instances for the external backend are not built; 'usable' stops at the point of dialling."),
  "C01": dict(
-  technique="; the extended-key-usage LIST of the signing certificate as written (CT alone / before / after anyExtendedKeyUsage / beside specific purposes; real issuers with anyExtendedKeyUsage or a specific purpose only): law EkuMembershipDecides, pre-issuer-ness read off the DER by the harness"),
+  technique="; the extended-key-usage LIST of the signing certificate as written (CT alone / before / after anyExtendedKeyUsage / beside specific purposes; real issuers with anyExtendedKeyUsage or a specific purpose only): law EkuMembershipDecides, pre-issuer-ness read off the DER by the harness; an accepted submission must be found in the backend under the SHA-256 of the submitted leaf certificate in every chain storage mode"),
  "C08": dict(
-  technique="; x configuration: InstanceOptions.ErrorMapper none / all-declining / partial / total (DeclinedFallsBack, named clause MapperOverrides, assumption MapperNeverSuccess) incl. an error without gRPC status; get-proof-by-hash replies of 1-3 proofs x index order x subset malformed x node position / size (ProofNeverMalformed; named unasserted clause ServedProofUnasserted)",
+  technique="; x configuration: InstanceOptions.ErrorMapper none / all-declining / partial / total (DeclinedFallsBack, named clause MapperOverrides, assumption MapperNeverSuccess) incl. an error without gRPC status; get-proof-by-hash replies of 1-3 proofs x index order x subset malformed x node position / size (ProofNeverMalformed; named unasserted clause ServedProofUnasserted); absent-part replies of get-entry-and-proof x request shape (first / later / last leaf x tree of 1, 2, 4, 5 leaves; named clause SingleLeafEmptyPath); wrong methods token by token on every endpoint incl. the letter-case variants of GET and POST",
   note=" Matrix 5285 cases; mapper and proof-list dimensions in direct issuance-chain mode only."),
  "C10": dict(
   technique="; 84 string forms per string tag (BMP surrogates, UTF-8 overlong / surrogate / truncated, repertoire neighbours) with verdict and value computed by TLA+ UTF-8 / UTF-16 / repertoire operators; EXPLICIT x target type (RawValue / Flag / bytes / struct / bool) x empty / primitive wrapper x position (followed / last / top level)",
@@ -520,6 +520,8 @@ EXTRA5 = {
  "C14": dict(
   technique="; ChainStorePaging.tla: the page dimension (length classes around powers of two and multiples of 4 x start alignment x cache configuration and state x unfixable-leaf position; per-leaf work split among any workers in any order; PageWhole, UnfixableIsError, PlanIrrelevant; defects tailDropped / laterWorkerErrorLost refuted); simulated behaviours replayed on twin instances over a 300-leaf (thorough 700) tree, every entry of every response byte for byte",
   note=" Page lengths 1..270 (thorough 530) by classes, not every length; alignment modelled for the default flag value."),
+ "C07": dict(
+  technique="; every shape is also read through client.LogClient.GetEntries (the second observation point of the decoding clause); reads over external storage whose request context ends inside the k-th chain lookup are refused or served whole"),
 }
 for _pid, _e in EXTRA5.items():
     EXTRA4.setdefault(_pid, {})
